@@ -50,6 +50,11 @@ var logFragments = []string{
 
 func (s *logSink) Write(p []byte) (int, error) {
 	line := string(p)
+	if strings.Contains(line, "for unknown validator") {
+		// The log writer is a dependency the harness supplies: this line is written inside the resolve loops,
+		// between two setDutyDefinition calls. A short pause here widens that window for concurrent head events.
+		time.Sleep(100 * time.Microsecond)
+	}
 	for _, f := range logFragments {
 		if strings.Contains(line, f) {
 			v, _ := s.counts.LoadOrStore(f, new(int64))
@@ -269,9 +274,9 @@ func runCase(c *kit.Case, rng *rand.Rand, phase string, reorgFeature bool, early
 				break
 			}
 			close(ev.release)
-			if chance(0.3, "racing", slot) { // concurrently with scheduleSlot(slot): resolution, duty goroutines starting
-				for i := 0; i < 3; i++ {
-					head("racing-scheduleSlot", slot+uint64(i%2))
+			if chance(0.5, "racing", slot) { // concurrently with scheduleSlot(slot): resolution, duty goroutines starting
+				for i := 0; i < 8; i++ {
+					head("racing-scheduleSlot", slot+uint64(i%3))
 				}
 			}
 			h.settle()
